@@ -46,6 +46,8 @@ def generate(prop, seed, tier='quick', sub='crash'):
     vopts = gen.make_opts(rng, len(pool))
     victim = gen.gen_op(rng, kind, len(pool), vopts)
     victim.pop('from_key', None)
+    if victim.get('via') == 'offset':
+        victim['via'] = 'stream' if kind == 'add_loose' else 'bytesio'  # expectations() predicts the keys from the pool contents
     if kind == 'add_pack':
         # the direct-to-pack path has the most option-dependent branches: draw its options uniformly (no swarm
         # restriction) and make "content already known, followed by new content" likely
@@ -79,6 +81,8 @@ def generate(prop, seed, tier='quick', sub='crash'):
             kind = rng.choice(['add_pack', 'pack_loose', 'add_pack', 'import'])
             victim = gen.gen_op(rng, kind, len(pool), vopts)
             victim.pop('from_key', None)
+            if victim.get('via') == 'offset':
+                victim['via'] = 'bytesio'
         config['pack_size_target'] = rng.choice([50, 500, 3000, 20000])
         followups = []
         for _ in range(rng.randint(2, 4)):
